@@ -355,6 +355,13 @@ def scenario(ctx):
             if not acq_expected and got_acq:
                 raise Violation('C13/name-acquired', 'spurious', 'peer %d got NameAcquired(%s) '
                                 'with reply code %d' % (c, n, code))
+            # a request promotes nobody but (possibly) the requester
+            for q in peers:
+                if q['idx'] != c and acquired_signals(new_by_peer.get(q['idx'], []), n):
+                    raise Violation('C13/name-acquired', 'bystander told during a request',
+                                    'peer %d received NameAcquired(%s) while peer %d\'s RequestName '
+                                    '(answered %d) was processed; it is %s'
+                                    % (q['idx'], n, c, code, relation(states, q['idx'], n)))
             if code == 1 and had_owner:
                 sim.probe('replacement-happened')
             elif code in (2, 3, 4):
